@@ -300,8 +300,21 @@ class atom(boolean.AndRestriction):
         elif self.version is not None:
             raise errors.MalformedAtom(orig_atom, "versioned atom requires an operator")
 
-        self._hash = hash(orig_atom)
         self.negate_vers = negate_vers
+        # hash what __eq__ compares; the original string spells equal atoms differently
+        self._hash = hash(
+            (
+                self.cpvstr,
+                self.op,
+                self.blocks,
+                negate_vers,
+                self.use,
+                self.slot,
+                self.subslot,
+                self.slot_operator,
+                self.repo_id,
+            )
+        )
 
     __getattr__ = klass.GetAttrProxy("_cpv")
     __dir__ = klass.DirProxy("_cpv")
